@@ -459,7 +459,11 @@ impl TestRunnerMemoryAccessor {
 
 impl MemoryAccessor for TestRunnerMemoryAccessor {
     fn read(&mut self, address: u16, len: usize) -> Vec<u8> {
-        self.ram.read().unwrap().ram[address as usize..address as usize + len].to_vec()
+        // Reading past the end of memory yields fewer bytes (ram16($ffff) then has no value) instead of panicking
+        let ram = &self.ram.read().unwrap().ram;
+        let start = address as usize;
+        let end = (start + len).min(ram.len());
+        ram[start..end].to_vec()
     }
 
     fn write(&mut self, _address: u16, _bytes: &[u8]) {
